@@ -47,6 +47,8 @@ impl PanicInfo {
         let f = &self.file;
         if let Some(i) = f.find("/repo/") {
             f[i + 6..].to_string()
+        } else if let Some(rest) = repo_root().and_then(|r| f.strip_prefix(r)) {
+            rest.to_string()
         } else if let Some(i) = f.find("/library/") {
             f[i + 1..].to_string()
         } else if let Some(i) = f.find("/registry/src/") {
@@ -121,8 +123,15 @@ pub fn classify_msg(msg: &str) -> PanicClass {
     }
 }
 
+/// The directory of the repository under test when it is not `/repo` (scratch copies, worktrees): the driver passes it on
+/// in `VERIF_REPO_PATH`, taken from the path dependency in `harness/Cargo.toml`.
+fn repo_root() -> Option<&'static str> {
+    static ROOT: std::sync::OnceLock<Option<String>> = std::sync::OnceLock::new();
+    ROOT.get_or_init(|| std::env::var("VERIF_REPO_PATH").ok().filter(|s| !s.is_empty()).map(|s| if s.ends_with('/') { s } else { s + "/" })).as_deref()
+}
+
 pub fn classify_origin(file: &str) -> PanicOrigin {
-    if file.starts_with("/repo/") || file.contains("/repo/src/") {
+    if file.starts_with("/repo/") || file.contains("/repo/src/") || repo_root().map_or(false, |r| file.starts_with(r)) {
         PanicOrigin::Repo
     } else if file.contains("/verif/") || file.starts_with("h_") || file.starts_with("hcommon")
         || file.starts_with("vengine") || file.starts_with("src/") || file.starts_with("fuzz_targets/")
